@@ -8,7 +8,9 @@ import ALV.Lemmas.C04Index
 set_option linter.unusedSectionVars false
 set_option linter.unusedSimpArgs false
 namespace ALV.C04
-variable {K : Type} [Field K] [DecidableEq K]
+
+section generic
+variable {K : Type} [OfNat K 0] [DecidableEq K]
 
 theorem keys_shiftKeys (p : Int) (t : Terms K) : keys (shiftKeys p t) = (keys t).map (· - p) := by
   simp [keys, shiftKeys, List.map_map, Function.comp]
@@ -65,6 +67,13 @@ theorem dense_shift_mkPoly (pairs : List (Int × K)) (p : Int) :
       simp only [Int.ofNat_eq_natCast]
       omega
 
+theorem all_beq_zero (l : List K) : (l.all (fun c => c == 0)) = true ↔ ∀ c ∈ l, c = 0 := by
+  simp [List.all_eq_true]
+
+end generic
+
+variable {K : Type} [Field K] [DecidableEq K]
+
 /-- the specification's memory and the coded memory normalisation feed the same `lm` items -/
 theorem specMem_take (zero : K) (lm : Nat) (m : Mem K) :
     (specMem zero lm m).take lm = memoryOf zero lm m := by
@@ -95,8 +104,5 @@ theorem fspec_specMem (b as : List K) (a0 zero : K) (m : Mem K) (xs : List K) :
       = fspec b as a0 zero (memoryOf zero as.length m) [] xs := by
   apply fspec_congr_hy
   rw [specMem_take, List.take_of_length_le (by rw [memoryOf_length])]
-
-theorem all_beq_zero (l : List K) : (l.all (fun c => c == 0)) = true ↔ ∀ c ∈ l, c = 0 := by
-  simp [List.all_eq_true]
 
 end ALV.C04
